@@ -97,39 +97,93 @@ theorem evalList_rest_vars (GP : GProg) (m : Nat) :
       have h2 := ih as ((r, a) :: genv) (List.nodup_cons.mp hnd).2 (by simpa using hl)
       exact Res.bind_eq_some.mpr ⟨[], a, [], h1, Res.bind_eq_some.mpr ⟨[], as, [], h2, rfl, rfl⟩, rfl⟩
 
-/-- the given (atomic) arguments of a partial application evaluate, inside the closure, to the values
+theorem primFO_silent {p : Prim} (hs : isSilentPrim p = true) {fos : List FO} {t : Trace} {v : FO}
+    (h : primFO p fos = some (t, v)) : t = [] := by
+  unfold primFO at h
+  split at h <;> simp_all [isSilentPrim]
+  obtain ⟨_, _, ht, _⟩ := h
+  exact ht
+
+/-- the given (pure) arguments of a partial application evaluate, inside the closure, to the values
 they had when the closure was built, without output -/
-theorem evalList_atoms (GP : GProg) (m : Nat) (rs : List String) (gargs : List GVal) (genv : GEnv) :
-    ∀ (ges : List GExpr) (gvs : List GVal), gatomEvals genv ges = some gvs → (∀ ge ∈ ges, isGAtomFor rs ge = true) →
-      evalList (gevalN GP (m + 1)).expr ((rs.zip gargs).reverse ++ genv) ges = some ([], gvs) := by
-  intro ges
-  induction ges with
-  | nil => intro gvs h _; simp [gatomEvals] at h; subst h; rfl
-  | cons ge ges ih =>
-    intro gvs h hat
-    simp only [gatomEvals] at h
-    cases hge : gatomEval genv ge with
-    | none => simp [hge] at h
+theorem geval_pure (GP : GProg) (rs : List String) (gargs : List GVal) (genv : GEnv) :
+    ∀ (k : Nat) (e : GExpr) (gv : GVal), gpureEvalN k genv e = some gv → isGPureFor rs e = true →
+      (gevalN GP k).expr ((rs.zip gargs).reverse ++ genv) e = some ([], gv) := by
+  intro k
+  induction k with
+  | zero => intro e gv h; simp [gpureEvalN] at h
+  | succ k ih =>
+    -- argument lists, by the induction hypothesis
+    have hlist : ∀ (es : List GExpr) (gvs : List GVal), optList (gpureEvalN k genv) es = some gvs → isGPureForL rs es = true →
+        evalList (gevalN GP k).expr ((rs.zip gargs).reverse ++ genv) es = some ([], gvs) := by
+      intro es
+      induction es with
+      | nil => intro gvs h _; simp [optList] at h; subst h; rfl
+      | cons e es ihl =>
+        intro gvs h hp
+        simp only [isGPureForL, Bool.and_eq_true] at hp
+        simp only [optList] at h
+        cases he : gpureEvalN k genv e with
+        | none => simp [he] at h
+        | some gv =>
+          cases hes : optList (gpureEvalN k genv) es with
+          | none => simp [he, hes] at h
+          | some gvs' =>
+            simp [he, hes] at h
+            subst h
+            simp only [evalList]
+            exact Res.bind_eq_some.mpr ⟨[], gv, [], ih e gv he hp.1,
+              Res.bind_eq_some.mpr ⟨[], gvs', [], ihl gvs' hes hp.2, rfl, rfl⟩, rfl⟩
+    intro e gv h hp
+    cases e with
+    | lit l => simp [gpureEvalN] at h; subst h; rfl
+    | var x =>
+      have hx : rs.contains x = false := by simpa [isGPureFor] using hp
+      apply g_var
+      rw [lookup_call_env_other hx]
+      simpa [gpureEvalN] using h
+    | prim p args =>
+      simp only [isGPureFor, Bool.and_eq_true] at hp
+      simp only [gpureEvalN] at h
+      split at h
+      · rename_i vs hvs
+        split at h
+        · rename_i fos hfos
+          cases hprim : primFO p fos with
+          | none => simp [hprim] at h
+          | some r =>
+            obtain ⟨t, v⟩ := r
+            simp [hprim] at h
+            subst h
+            have ht := primFO_silent hp.1 hprim
+            subst ht
+            have := g_prim GP (hlist args vs hvs hp.2) hfos hprim
+            simpa using this
+        · cases h
+      · cases h
+    | _ => simp [gpureEvalN] at h
+
+theorem geval_pures (GP : GProg) (rs : List String) (gargs : List GVal) (genv : GEnv) (k : Nat) :
+    ∀ (es : List GExpr) (gvs : List GVal), optList (gpureEvalN k genv) es = some gvs → isGPureForL rs es = true →
+      evalList (gevalN GP k).expr ((rs.zip gargs).reverse ++ genv) es = some ([], gvs) := by
+  intro es
+  induction es with
+  | nil => intro gvs h _; simp [optList] at h; subst h; rfl
+  | cons e es ihl =>
+    intro gvs h hp
+    simp only [isGPureForL, Bool.and_eq_true] at hp
+    simp only [optList] at h
+    cases he : gpureEvalN k genv e with
+    | none => simp [he] at h
     | some gv =>
-      cases hges : gatomEvals genv ges with
-      | none => simp [hge, hges] at h
+      cases hes : optList (gpureEvalN k genv) es with
+      | none => simp [he, hes] at h
       | some gvs' =>
-        simp [hge, hges] at h
+        simp [he, hes] at h
         subst h
-        have h1 : (gevalN GP (m + 1)).expr ((rs.zip gargs).reverse ++ genv) ge = some ([], gv) := by
-          cases ge with
-          | lit l => simp [gatomEval] at hge; subst hge; rfl
-          | var x =>
-            have hx : rs.contains x = false := by
-              have := hat (.var x) List.mem_cons_self
-              simpa [isGAtomFor] using this
-            apply g_var
-            rw [lookup_call_env_other hx]
-            simpa [gatomEval] using hge
-          | _ => simp [gatomEval] at hge
-        have h2 := ih gvs' hges (fun g hg => hat g (List.mem_cons_of_mem _ hg))
         simp only [evalList]
-        exact Res.bind_eq_some.mpr ⟨[], gv, [], h1, Res.bind_eq_some.mpr ⟨[], gvs', [], h2, rfl, rfl⟩, rfl⟩
+        exact Res.bind_eq_some.mpr ⟨[], gv, [], geval_pure GP rs gargs genv k e gv he hp.1,
+          Res.bind_eq_some.mpr ⟨[], gvs', [], ihl gvs' hes hp.2, rfl, rfl⟩, rfl⟩
 
 /-! ### arm selection and function lookup commute with lowering -/
 
